@@ -40,7 +40,7 @@ FUNCTIONS = [
     "pyxel.data_structure.photon:Photon.dtype",
 ]
 STUBS = ["np -> vx.symnp in pyxel.data_structure.*: element values symbolic, dtype/shape/casting/broadcast verdicts from real numpy (ghost arrays)"]
-OUTSIDE = ["NaN and infinite values (real arithmetic)", "3-D (multi-wavelength) photons: xarray.DataArray cannot hold symbolic values",
+OUTSIDE = ["NaN and infinite values (real arithmetic)", "3-D (multi-wavelength) photons go through a recording stand-in for xarray.DataArray (dims, coords, dtype, values)",
            "histories are covered by induction on the validity invariant, not enumerated"]
 ASSUMPTIONS = ["values are finite reals / integers"]
 EXPLANATION = "invariant: a container is empty or holds an array of the detector shape and an allowed dtype (photon >= 0 after assignment)"
@@ -70,11 +70,15 @@ def tasks(tier, seed):
             out.append({"fn": "equality", "kwargs": {"kind": kind, "a": a, "b": b, "other": kind}, "label": f"{kind}/eq/{a},{b}"})
         out.append({"fn": "equality", "kwargs": {"kind": kind, "a": "full", "b": "full", "other": "signal" if kind != "signal" else "pixel"},
                     "label": f"{kind}/eq/other_kind"})
+    for pre in ("empty", "full3d", "full2d"):
+        for op in ("set3d", "iadd"):
+            for arg in ("ok", "int_dtype", "wrong_yx", "wrong_dims", "no_coords", "array2d"):
+                out.append({"fn": "photon3d", "kwargs": {"pre": pre, "op": op, "arg": arg}, "label": f"photon3d/{op}/{pre}/{arg}"})
     return out
 
 
 def REQUIRED_REACH(tier):
-    return ["C13/*/set/invariant", "C13/*/iadd/invariant", "C13/*/reject_keeps_content", "C13/*/read_empty_raises", "C13/*/eq_definition",
+    return ["C13/photon3d/invariant", "C13/photon3d/reject_keeps_content", "C13/*/set/invariant", "C13/*/iadd/invariant", "C13/*/reject_keeps_content", "C13/*/read_empty_raises", "C13/*/eq_definition",
             "C13/*/eq_symmetric", "C13/photon/assign_nonnegative"]
 
 
@@ -178,6 +182,83 @@ def step(kind, pre, op, dtype, shape):
             same = (c._array is None) if snap is None else (c._array is not None and tuple(c._array.shape) == SHAPE
                                                               and c._array.dtype == snap.dtype and arr_eq(c._array, snap))
             vx.prove(f"C13/{kind}/reject_keeps_content", same, op=op, dtype=dtype, shape=list(shape), pre=pre, error=type(raised).__name__)
+
+
+def _xr_shim():
+    import types
+
+    import xarray as real_xr
+
+    from vx import fakexr
+
+    m = types.ModuleType("vx_fake_xarray")
+    m.DataArray = fakexr.DataArray
+    m.Dataset = real_xr.Dataset
+    m.DataTree = real_xr.DataTree
+    return m
+
+
+def photon3d(pre, op, arg):
+    """Multi-wavelength photons: the stored value is a (wavelength, y, x) data array of the detector's rows x columns."""
+    import pyxel.data_structure as ds
+    from vx import fakexr
+
+    nw = 2
+    with Patch() as p:
+        p.numpy(*DATA_MODULES)
+        p.sysmodule("xarray", _xr_shim(), "recording stand-in for xarray.DataArray (dims, coords, dtype, values)")
+        c = ds.Photon(_geo())
+        snap = None
+        if pre == "full3d":
+            content = sym_array("pre", (nw,) + SHAPE)
+            for e in content.elems():
+                vx.assume(e >= 0, "pre-state holds valid (non-negative) photon values")
+            c._array = fakexr.DataArray(content, dims=("wavelength", "y", "x"), coords={"wavelength": [500.0, 600.0]})
+            snap = content.copy()
+        elif pre == "full2d":
+            content = sym_array("pre", SHAPE)
+            for e in content.elems():
+                vx.assume(e >= 0, "pre-state holds valid (non-negative) photon values")
+            c._array = content
+            snap = content.copy()
+        if arg == "array2d":
+            value = sym_array("arg", SHAPE)
+        else:
+            shape = (nw,) + (SHAPE if arg != "wrong_yx" else (3, 2))
+            data = sym_array("arg", shape, kind="int" if arg == "int_dtype" else "real", dtype="int64" if arg == "int_dtype" else float)
+            dims = ("wavelength", "y", "x") if arg != "wrong_dims" else ("y", "x", "wavelength")
+            if arg == "wrong_dims":
+                data = sym_array("arg2", SHAPE + (nw,))
+            value = fakexr.DataArray(data, dims=dims, coords={} if arg == "no_coords" else {"wavelength": [500.0, 600.0]})
+        raised = None
+        try:
+            if op == "set3d":
+                c.array_3d = value
+            else:
+                c += value
+        except Exception as e:  # noqa: BLE001
+            raised = e
+        a = c._array
+        if a is None:
+            valid = True
+        elif isinstance(a, fakexr.DataArray):
+            valid = a.dims == ("wavelength", "y", "x") and tuple(a.shape[1:]) == SHAPE and a.dtype.kind == "f" and "wavelength" in a.coords
+        else:
+            valid = isinstance(a, symnp.SymArray) and tuple(a.shape) == SHAPE and a.dtype.kind == "f"
+        lab = f"{op}/{pre}/{arg}"
+        if raised is None:
+            vx.prove("C13/photon3d/invariant", valid, case=lab)
+            if valid and isinstance(a, fakexr.DataArray) and (op == "set3d" or pre == "empty"):
+                vx.prove("C13/photon3d/assign_nonnegative", vx.all_of([e >= 0 for e in a.data.elems()]), case=lab)
+        else:
+            if snap is None:
+                same = a is None
+            else:
+                cur = a.data if isinstance(a, fakexr.DataArray) else a
+                same = cur is not None and tuple(cur.shape) == tuple(snap.shape) and arr_eq(cur, snap)
+            vx.prove("C13/photon3d/reject_keeps_content", same, case=lab, error=type(raised).__name__)
+        if arg == "ok" and pre in ("empty", "full3d"):
+            vx.prove("C13/photon3d/valid_operation_accepted", raised is None, case=lab, error=repr(raised)[:100])
 
 
 def simple_ops(kind, pre):
